@@ -1,5 +1,4 @@
 import Tuc.Model.LinesLoop
-import Tuc.Lemmas.FastLoop
 import Tuc.Lemmas.Run
 import Tuc.Lemmas.StreamSpec
 import Tuc.Props.C05Utf8
@@ -9,7 +8,6 @@ import Tuc.Props.C05Utf8
 
 namespace Tuc
 namespace LinesLoop
-open FastLoop
 
 /-! ## 1. the reader -/
 
@@ -166,100 +164,201 @@ theorem fwdLines_cons (o : Opt) (line : Bytes) (t : List Bytes) (idx : Int) (res
         (fwdLines o t (idx + 1) (fwdLine o line (idx + 1) rest a).2.1 (fwdLine o line (idx + 1) rest a).2.2) := by
   simp only [fwdLines]
 
-/-! ## 4. the loop over the bounds for one line (l.29-69) -/
+/-! ## 4. the counter: `line_idx` / `past_last_index` against the unbounded index of the model -/
+
+/-- what the repaired loop relies on past the last `i32` index: every written side is at most
+    `i32::MAX`, and an open-ended bound does not start at a negative index (both hold for every
+    bound of a forward-only list the parser produced) -/
+def PastOk (b : UserBounds) : Prop :=
+  (∀ v, b.l = .some v → v ≤ i32Max) ∧ (∀ w, b.r = .some w → w ≤ i32Max) ∧
+  (b.r = .cont → ∀ v, b.l = .some v → 0 ≤ v)
+
+/-- the pair `(line_idx, past_last_index)` stands for the model's index `idx`: equal to it while
+    it fits, stuck at `i32::MAX` with the flag set afterwards -/
+def Tracks (idx lineIdx : Int) (past : Bool) : Prop :=
+  (past = false ∧ lineIdx = idx ∧ 0 ≤ idx ∧ idx ≤ i32Max) ∨
+  (past = true ∧ lineIdx = i32Max ∧ i32Max < idx)
+
+/-- l.23-26: one more line -/
+theorem tracks_step {idx lineIdx : Int} {past : Bool} (h : Tracks idx lineIdx past) :
+    (idx < i32Max ∧ past = false ∧ i32CheckedAdd lineIdx 1 = Option.some (idx + 1)) ∨
+    (i32Max ≤ idx ∧ i32CheckedAdd lineIdx 1 = Option.none ∧ lineIdx = i32Max) := by
+  rcases h with ⟨hp, rfl, h0, h1⟩ | ⟨hp, rfl, h1⟩
+  · by_cases hm : lineIdx < i32Max
+    · left
+      refine ⟨hm, hp, ?_⟩
+      unfold i32CheckedAdd
+      rw [if_pos ⟨by simp only [i32Min]; omega, by omega⟩]
+    · right
+      refine ⟨by omega, ?_, by omega⟩
+      unfold i32CheckedAdd
+      rw [if_neg (by omega)]
+  · right
+    refine ⟨by omega, ?_, rfl⟩
+    unfold i32CheckedAdd
+    rw [if_neg (by omega)]
+
+/-- **past the last `i32` index `matches` is "open-ended"** (l.52-56) -/
+theorem isMatch_eq {idx lineIdx : Int} {past : Bool} (h : Tracks idx lineIdx past) (b : UserBounds)
+    (hb : past = true → PastOk b) :
+    (if past then decide (b.r = Side.cont) else (b.matches lineIdx).getD false) =
+      (b.matches idx).getD false := by
+  rcases h with ⟨hp, rfl, _, _⟩ | ⟨hp, _, hbig⟩
+  · simp only [hp, Bool.false_eq_true, if_false]
+  · obtain ⟨hl, hr, hneg⟩ := hb hp
+    simp only [hp, if_true]
+    unfold UserBounds.matches
+    cases hbl : b.l with
+    | cont =>
+      cases hbr : b.r with
+      | cont => simp
+      | some w =>
+        have := hr w hbr
+        by_cases ho : oppSign w idx = true
+        · simp [ho]
+        · have : ¬ idx ≤ w := by omega
+          simp [ho, this]
+    | some v =>
+      have hv := hl v hbl
+      cases hbr : b.r with
+      | cont =>
+        have h0 := hneg hbr v hbl
+        have ho : oppSign v idx = false := by
+          simp only [oppSign, Bool.or_eq_false_iff, Bool.and_eq_false_iff, decide_eq_false_iff_not]
+          constructor
+          · right; omega
+          · left; omega
+        have : v ≤ idx := by omega
+        simp [ho, this]
+      | some w =>
+        have := hr w hbr
+        by_cases ho1 : oppSign v idx = true
+        · simp [ho1]
+        · by_cases ho2 : oppSign w idx = true
+          · simp [ho1, ho2]
+          · have : ¬ idx ≤ w := by omega
+            simp [ho1, ho2, this]
+
+/-- **past the last `i32` index no bound is exhausted** (l.66) -/
+theorem exhausted_eq {idx lineIdx : Int} {past : Bool} (h : Tracks idx lineIdx past) (b : UserBounds)
+    (hb : past = true → PastOk b) :
+    (!past && decide (b.r = Side.some lineIdx)) = decide (b.r = Side.some idx) := by
+  rcases h with ⟨hp, rfl, _, _⟩ | ⟨hp, _, hbig⟩
+  · simp only [hp, Bool.not_false, Bool.true_and]
+  · obtain ⟨_, hr, _⟩ := hb hp
+    have : ¬ b.r = Side.some idx := by
+      intro e
+      have := hr idx e
+      omega
+    simp [hp, this]
+
+/-! ## 5a. the loop over the bounds for one line (l.35-81) -/
 
 theorem getElem?_at (pre : List BoF) (x : BoF) (t : List BoF) : (pre ++ x :: t)[pre.length]? = Option.some x := by
   simp
 
-theorem innerBody_filler (opt : Opt) (line : Bytes) (idx : Int) (a : Bool) (pre : List BoF) (f : Bytes)
+theorem innerBody_filler (opt : Opt) (line : Bytes) (li : Int) (p a : Bool) (pre : List BoF) (f : Bytes)
     (t : List BoF) (h : opt.bounds.list = pre ++ .filler f :: t) :
-    innerBody opt line ⟨idx, pre.length, a⟩ =
-      (Run.ok (f ++ lineJoiner opt t), ⟨idx, pre.length + 1, a⟩, true) := by
+    innerBody opt line ⟨li, p, pre.length, a⟩ =
+      (Run.ok (f ++ lineJoiner opt t), ⟨li, p, pre.length + 1, a⟩, true) := by
   have hget : opt.bounds.list[pre.length]? = Option.some (.filler f) := by rw [h]; exact getElem?_at _ _ _
   simp only [innerBody, hget, joinWrite_eq opt pre _ t h, ok_seq_ok]
 
-theorem innerBody_nomatch (opt : Opt) (line : Bytes) (idx : Int) (a : Bool) (pre : List BoF) (b : UserBounds)
+theorem innerBody_nomatch (opt : Opt) (line : Bytes) (li : Int) (p a : Bool) (pre : List BoF) (b : UserBounds)
     (t : List BoF) (h : opt.bounds.list = pre ++ .bound b :: t)
-    (hm : ¬ (b.matches idx).getD false = true) :
-    innerBody opt line ⟨idx, pre.length, a⟩ = (Run.empty, ⟨idx, pre.length, a⟩, false) := by
+    (hm : ¬ (if p then decide (b.r = Side.cont) else (b.matches li).getD false) = true) :
+    innerBody opt line ⟨li, p, pre.length, a⟩ = (Run.empty, ⟨li, p, pre.length, a⟩, false) := by
   have hget : opt.bounds.list[pre.length]? = Option.some (.bound b) := by rw [h]; exact getElem?_at _ _ _
   simp only [innerBody, hget, if_neg hm]
 
-theorem innerBody_stay (opt : Opt) (line : Bytes) (idx : Int) (a : Bool) (pre : List BoF) (b : UserBounds)
+theorem innerBody_stay (opt : Opt) (line : Bytes) (li : Int) (p a : Bool) (pre : List BoF) (b : UserBounds)
     (t : List BoF) (h : opt.bounds.list = pre ++ .bound b :: t)
-    (hm : (b.matches idx).getD false = true) (hr : ¬ b.r = .some idx) :
-    innerBody opt line ⟨idx, pre.length, a⟩ =
-      (Run.ok ((if a then [opt.eol.byte] else []) ++ line), ⟨idx, pre.length, true⟩, false) := by
+    (hm : (if p then decide (b.r = Side.cont) else (b.matches li).getD false) = true)
+    (hr : ¬ (!p && decide (b.r = Side.some li)) = true) :
+    innerBody opt line ⟨li, p, pre.length, a⟩ =
+      (Run.ok ((if a then [opt.eol.byte] else []) ++ line), ⟨li, p, pre.length, true⟩, false) := by
   have hget : opt.bounds.list[pre.length]? = Option.some (.bound b) := by rw [h]; exact getElem?_at _ _ _
   simp only [innerBody, hget, if_pos hm, if_neg hr]
   cases a <;> rfl
 
-theorem innerBody_next (opt : Opt) (line : Bytes) (idx : Int) (a : Bool) (pre : List BoF) (b : UserBounds)
+theorem innerBody_next (opt : Opt) (line : Bytes) (li : Int) (p a : Bool) (pre : List BoF) (b : UserBounds)
     (t : List BoF) (h : opt.bounds.list = pre ++ .bound b :: t)
-    (hm : (b.matches idx).getD false = true) (hr : b.r = .some idx) :
-    innerBody opt line ⟨idx, pre.length, a⟩ =
+    (hm : (if p then decide (b.r = Side.cont) else (b.matches li).getD false) = true)
+    (hr : (!p && decide (b.r = Side.some li)) = true) :
+    innerBody opt line ⟨li, p, pre.length, a⟩ =
       (Run.ok ((if a then [opt.eol.byte] else []) ++ line ++ lineJoiner opt t),
-        ⟨idx, pre.length + 1, false⟩, true) := by
+        ⟨li, p, pre.length + 1, false⟩, true) := by
   have hget : opt.bounds.list[pre.length]? = Option.some (.bound b) := by rw [h]; exact getElem?_at _ _ _
   simp only [innerBody, hget, if_pos hm, if_pos hr, joinWrite_eq opt pre _ t h]
   cases a <;> rfl
 
-/-- **the loop over the bounds for one line is `fwdLine`**: it writes the same bytes, stops at the
-    same element of the list, leaves the same `add_newline_next` — and `bounds.len() + 1` units of
-    fuel (any amount above the number of pending elements) are enough -/
-theorem innerWhile_eq (opt : Opt) (line : Bytes) (idx : Int) :
+/-- **the loop over the bounds for one line is `fwdLine`** at the index the counter stands for: it
+    writes the same bytes, stops at the same element of the list, leaves the same
+    `add_newline_next` — and `bounds.len() + 1` units of fuel (any amount above the number of
+    pending elements) are enough -/
+theorem innerWhile_eq (opt : Opt) (line : Bytes) (idx li : Int) (p : Bool) (htr : Tracks idx li p) :
     ∀ (rest pre : List BoF) (fuel : Nat) (a : Bool), opt.bounds.list = pre ++ rest →
-      rest.length < fuel →
+      rest.length < fuel → (p = true → ∀ b, BoF.bound b ∈ rest → PastOk b) →
       ∃ pre', opt.bounds.list = pre' ++ (fwdLine opt line idx rest a).2.1 ∧
-        innerWhile opt line fuel ⟨idx, pre.length, a⟩ =
+        innerWhile opt line fuel ⟨li, p, pre.length, a⟩ =
           (Run.ok (fwdLine opt line idx rest a).1,
-            ⟨idx, pre'.length, (fwdLine opt line idx rest a).2.2⟩) := by
+            ⟨li, p, pre'.length, (fwdLine opt line idx rest a).2.2⟩) := by
   intro rest
   induction rest with
   | nil =>
-    intro pre fuel a h hf
+    intro pre fuel a h hf _
     obtain ⟨f, rfl⟩ : ∃ f, fuel = f + 1 := ⟨fuel - 1, by omega⟩
     refine ⟨pre, by rw [fwdLine_nil]; exact h, ?_⟩
     have hlt : ¬ pre.length < opt.bounds.list.length := by rw [h]; simp
     simp only [innerWhile, if_neg hlt, fwdLine_nil]
     rfl
   | cons x t ih =>
-    intro pre fuel a h hf
+    intro pre fuel a h hf hok
     obtain ⟨f, rfl⟩ : ∃ f, fuel = f + 1 := ⟨fuel - 1, by omega⟩
     have hlt : pre.length < opt.bounds.list.length := by rw [h]; simp
     have h' : opt.bounds.list = (pre ++ [x]) ++ t := by rw [h]; simp
     have hf' : t.length < f := by simp only [List.length_cons] at hf; omega
     have hlen : (pre ++ [x]).length = pre.length + 1 := by simp
+    have hok' : p = true → ∀ b, BoF.bound b ∈ t → PastOk b :=
+      fun hp b hb => hok hp b (List.mem_cons_of_mem _ hb)
     cases x with
     | filler fl =>
-      obtain ⟨pre', e1, e2⟩ := ih (pre ++ [.filler fl]) f a h' hf'
+      obtain ⟨pre', e1, e2⟩ := ih (pre ++ [.filler fl]) f a h' hf' hok'
       rw [hlen] at e2
       refine ⟨pre', by rw [fwdLine_filler]; exact e1, ?_⟩
-      simp only [innerWhile, if_pos hlt, innerBody_filler opt line idx a pre fl t h, if_true, e2,
+      simp only [innerWhile, if_pos hlt, innerBody_filler opt line li p a pre fl t h, if_true, e2,
         ok_seq_ok, fwdLine_filler]
     | bound b =>
+      have hb : p = true → PastOk b := fun hp => hok hp b (by simp)
+      have hM := isMatch_eq htr b hb
+      have hE := exhausted_eq htr b hb
       by_cases hm : (b.matches idx).getD false = true
-      · by_cases hr : b.r = .some idx
-        · obtain ⟨pre', e1, e2⟩ := ih (pre ++ [.bound b]) f false h' hf'
+      · have hm' := hM.trans hm
+        by_cases hr : b.r = .some idx
+        · have hr' : (!p && decide (b.r = Side.some li)) = true := by rw [hE]; simpa using hr
+          obtain ⟨pre', e1, e2⟩ := ih (pre ++ [.bound b]) f false h' hf' hok'
           rw [hlen] at e2
           refine ⟨pre', by rw [fwdLine_next _ _ _ _ _ _ hm hr]; exact e1, ?_⟩
-          simp only [innerWhile, if_pos hlt, innerBody_next opt line idx a pre b t h hm hr, if_true, e2,
+          simp only [innerWhile, if_pos hlt, innerBody_next opt line li p a pre b t h hm' hr', if_true, e2,
             ok_seq_ok, fwdLine_next _ _ _ _ _ _ hm hr]
-        · refine ⟨pre, by rw [fwdLine_stay _ _ _ _ _ _ hm hr]; exact h, ?_⟩
-          simp only [innerWhile, if_pos hlt, innerBody_stay opt line idx a pre b t h hm hr,
+        · have hr' : ¬ (!p && decide (b.r = Side.some li)) = true := by rw [hE]; simpa using hr
+          refine ⟨pre, by rw [fwdLine_stay _ _ _ _ _ _ hm hr]; exact h, ?_⟩
+          simp only [innerWhile, if_pos hlt, innerBody_stay opt line li p a pre b t h hm' hr',
             Bool.false_eq_true, if_false, fwdLine_stay _ _ _ _ _ _ hm hr]
-      · refine ⟨pre, by rw [fwdLine_nomatch _ _ _ _ _ _ hm]; exact h, ?_⟩
-        simp only [innerWhile, if_pos hlt, innerBody_nomatch opt line idx a pre b t h hm,
+      · have hm' : ¬ (if p then decide (b.r = Side.cont) else (b.matches li).getD false) = true := by
+          rw [hM]; exact hm
+        refine ⟨pre, by rw [fwdLine_nomatch _ _ _ _ _ _ hm]; exact h, ?_⟩
+        simp only [innerWhile, if_pos hlt, innerBody_nomatch opt line li p a pre b t h hm',
           Bool.false_eq_true, if_false, fwdLine_nomatch _ _ _ _ _ _ hm]
         rfl
 
-/-! ## 5. the epilogue (l.78-112) -/
+/-! ## 5. the epilogue (l.90-124) -/
 
 /-- **the epilogue and the final EOL are `fwdEnd`** -/
-theorem epilogueWhile_eq (opt : Opt) (idx : Int) :
+theorem epilogueWhile_eq (opt : Opt) (li : Int) (p : Bool) :
     ∀ (rest pre : List BoF) (fuel : Nat) (a : Bool), opt.bounds.list = pre ++ rest →
       rest.length < fuel →
-      (epilogueWhile opt fuel ⟨idx, pre.length, a⟩).1.seq (Run.ok [opt.eol.byte]) = fwdEnd opt rest a := by
+      (epilogueWhile opt fuel ⟨li, p, pre.length, a⟩).1.seq (Run.ok [opt.eol.byte]) = fwdEnd opt rest a := by
   intro rest
   induction rest with
   | nil =>
@@ -277,7 +376,7 @@ theorem epilogueWhile_eq (opt : Opt) (idx : Int) :
     have hj := joinWrite_eq opt pre x t h
     have step : ∀ (out : Bytes) (a' : Bool),
         (((Run.ok out).seq (joinWrite opt (pre.length + 1))).seq
-          (epilogueWhile opt f ⟨idx, pre.length + 1, a'⟩).1).seq (Run.ok [opt.eol.byte]) =
+          (epilogueWhile opt f ⟨li, p, pre.length + 1, a'⟩).1).seq (Run.ok [opt.eol.byte]) =
         Run.pre (out ++ lineJoiner opt t) (fwdEnd opt t a') := by
       intro out a'
       have := ih (pre ++ [x]) f a' h' hf'
@@ -311,7 +410,7 @@ theorem epilogueWhile_eq (opt : Opt) (idx : Int) :
             simp only [epilogueWhile, hget, epilogueOutput, Bool.false_eq_true, if_false, fwdEnd, hfb, hgf]
             rfl
 
-/-! ## 6. the loop over the reader (l.19-75), followed by the epilogue -/
+/-! ## 6. the loop over the reader (l.22-87), followed by the epilogue -/
 
 /-- the rest of `cut_lines_forward_only` after the read loop has produced `w` -/
 def finish (opt : Opt) (w : Run × Vars) : Run :=
@@ -324,36 +423,62 @@ theorem finish_pre (opt : Opt) (out : Bytes) (r : Run) (v : Vars) :
 
 theorem finish_fail (opt : Opt) (v : Vars) : finish opt (Run.fail, v) = Run.fail := rfl
 
-/-- **the read loop, the epilogue and the final EOL are `fwdLines`**, as long as the `i32` line
-    counter fits; `len + 1` units of fuel (any amount above the number of bytes still to read) are
-    enough -/
+/-- **the read loop, the epilogue and the final EOL are `fwdLines`** from any state of the counter
+    that stands for the model's index, when every bound is `PastOk` — or, for any bounds at all,
+    when the lines still to come do not take the index past `i32::MAX`; `len + 1` units of fuel
+    (any amount above the number of bytes still to read) are enough -/
 theorem readWhile_eq (opt : Opt) :
-    ∀ (fuel : Nat) (stdin : Bytes) (pre rest : List BoF) (idx : Int) (a : Bool),
-      opt.bounds.list = pre ++ rest → stdin.length < fuel → 0 ≤ idx →
-      idx + (records opt.eol.byte stdin).length ≤ i32Max →
-      finish opt (readWhile opt fuel stdin ⟨idx, pre.length, a⟩) =
+    ∀ (fuel : Nat) (stdin : Bytes) (pre rest : List BoF) (idx li : Int) (p a : Bool),
+      opt.bounds.list = pre ++ rest → stdin.length < fuel → Tracks idx li p →
+      ((∀ b, BoF.bound b ∈ opt.bounds.list → PastOk b) ∨
+        idx + (records opt.eol.byte stdin).length ≤ i32Max) →
+      finish opt (readWhile opt fuel stdin ⟨li, p, pre.length, a⟩) =
         fwdLines opt (records opt.eol.byte stdin) idx rest a := by
   intro fuel
   induction fuel with
-  | zero => intro stdin _ _ _ _ _ h; omega
+  | zero => intro stdin _ _ _ _ _ _ _ h; omega
   | succ fuel ih =>
-    intro stdin pre rest idx a h hf h0 hfit
+    intro stdin pre rest idx li p a h hf htr hG
     have hL : rest.length < opt.bounds.list.length + 1 := by rw [h]; simp; omega
     by_cases hne : stdin = []
     · subst hne
       have hrec : records opt.eol.byte [] = [] := rfl
       simp only [readWhile, readLineWithEol_nil, hrec, fwdLines_nil, finish, Run.empty_seq]
-      exact epilogueWhile_eq opt idx rest pre _ a h hL
+      exact epilogueWhile_eq opt li p rest pre _ a h hL
     · obtain ⟨raw, rest', e1, e2, e3, e4, e5⟩ := reader_step opt.eol stdin hne
-      rw [e4] at hfit ⊢
-      simp only [List.length_cons] at hfit
-      have hadd : checkedAddI32 idx 1 = .ok (idx + 1) := checkedAddI32_ok h0 (by omega)
+      rw [e4] at hG ⊢
+      simp only [List.length_cons] at hG
+      -- l.23-26: the counter after this line
+      obtain ⟨li', p', hstep, htr'⟩ : ∃ li' p',
+          nextLine ⟨li, p, pre.length, a⟩ = ⟨li', p', pre.length, a⟩ ∧
+          Tracks (idx + 1) li' p' := by
+        rcases tracks_step htr with ⟨h1, hp, hadd⟩ | ⟨h1, hadd, hli⟩
+        · refine ⟨idx + 1, p, by simp only [nextLine, hadd], ?_⟩
+          left
+          rcases htr with ⟨_, _, h0, _⟩ | ⟨hp', _, _⟩
+          · exact ⟨hp, rfl, by omega, by omega⟩
+          · rw [hp] at hp'; cases hp'
+        · refine ⟨li, true, by simp only [nextLine, hadd], ?_⟩
+          right
+          exact ⟨rfl, hli, by omega⟩
+      have hG' : (∀ b, BoF.bound b ∈ opt.bounds.list → PastOk b) ∨
+          idx + 1 + (records opt.eol.byte rest').length ≤ i32Max := by
+        rcases hG with hG | hG
+        · left; exact hG
+        · right; omega
+      have hok : p' = true → ∀ b, BoF.bound b ∈ rest → PastOk b := by
+        intro hp' b hb
+        rcases hG' with hG' | hG'
+        · exact hG' b (by rw [h]; exact List.mem_append_right _ hb)
+        · rcases htr' with ⟨hp'', _⟩ | ⟨_, _, hbig⟩
+          · rw [hp'] at hp''; cases hp''
+          · omega
       rw [fwdLines_cons]
       by_cases hv : validUtf8 raw = true
       · have hv' : validUtf8 (stripEol opt.eol.byte raw) = true := by rw [← e5]; exact hv
-        obtain ⟨pre', p1, p2⟩ := innerWhile_eq opt (stripEol opt.eol.byte raw) (idx + 1) rest pre
-          (opt.bounds.list.length + 1) a h hL
-        simp only [readWhile, readLineWithEol_eq opt.eol stdin raw rest' e1 e2, hv, if_true, hadd, p2,
+        obtain ⟨pre', p1, p2⟩ := innerWhile_eq opt (stripEol opt.eol.byte raw) (idx + 1) li' p' htr'
+          rest pre (opt.bounds.list.length + 1) a h hL hok
+        simp only [readWhile, readLineWithEol_eq opt.eol stdin raw rest' e1 e2, hv, if_true, hstep, p2,
           hv', Bool.not_true, Bool.false_eq_true, if_false]
         generalize (fwdLine opt (stripEol opt.eol.byte raw) (idx + 1) rest a) = r at p1 ⊢
         obtain ⟨w, rest'', a'⟩ := r
@@ -363,7 +488,7 @@ theorem readWhile_eq (opt : Opt) :
           have hlen : (pre'.length == opt.bounds.list.length) = true := by
             rw [p1]; simp
           simp only [hlen, if_true, List.isEmpty_nil]
-          have := epilogueWhile_eq opt (idx + 1) [] pre' (opt.bounds.list.length + 1) a' p1 (by simp)
+          have := epilogueWhile_eq opt li' p' [] pre' (opt.bounds.list.length + 1) a' p1 (by simp)
           unfold finish
           rw [Run.seq_assoc, this]
           rfl
@@ -379,85 +504,12 @@ theorem readWhile_eq (opt : Opt) :
           simp only [hlen, Bool.false_eq_true, if_false, hemp]
           rw [finish_pre]
           congr 1
-          exact ih rest' pre' rest'' (idx + 1) a' p1 (by omega) (by omega) (by omega)
+          exact ih rest' pre' rest'' (idx + 1) li' p' a' p1 (by omega) htr' hG'
       · have hv' : validUtf8 (stripEol opt.eol.byte raw) = false := by
           rw [← e5]; simpa using hv
         simp only [readWhile, readLineWithEol_eq opt.eol stdin raw rest' e1 e2, hv, Bool.false_eq_true,
-          if_false, hadd, hv', Bool.not_false, if_true]
+          if_false, hstep, hv', Bool.not_false, if_true]
         rfl
-
-/-! ## 7. the `i32` line counter does overflow when the loop is not left early -/
-
-/-- an open bound at the end of the list is never exhausted by `fwdLine` -/
-theorem fwdLine_keeps_open (o : Opt) (line : Bytes) (idx : Int) (b : UserBounds) (hb : b.r = .cont) :
-    ∀ (r0 : List BoF) (a : Bool),
-      ∃ r1, (fwdLine o line idx (r0 ++ [.bound b]) a).2.1 = r1 ++ [.bound b] := by
-  intro r0
-  induction r0 with
-  | nil =>
-    intro a
-    have hr : ¬ b.r = .some idx := by rw [hb]; intro h; cases h
-    by_cases hm : (b.matches idx).getD false = true
-    · exact ⟨[], by rw [List.nil_append, fwdLine_stay _ _ _ _ _ _ hm hr]⟩
-    · exact ⟨[], by rw [List.nil_append, fwdLine_nomatch _ _ _ _ _ _ hm]⟩
-  | cons x t ih =>
-    intro a
-    cases x with
-    | filler f =>
-      obtain ⟨r1, h1⟩ := ih a
-      exact ⟨r1, by rw [List.cons_append, fwdLine_filler]; exact h1⟩
-    | bound b' =>
-      by_cases hm : (b'.matches idx).getD false = true
-      · by_cases hr : b'.r = .some idx
-        · obtain ⟨r1, h1⟩ := ih false
-          exact ⟨r1, by rw [List.cons_append, fwdLine_next _ _ _ _ _ _ hm hr]; exact h1⟩
-        · exact ⟨.bound b' :: t, by rw [List.cons_append, fwdLine_stay _ _ _ _ _ _ hm hr]⟩
-      · exact ⟨.bound b' :: t, by rw [List.cons_append, fwdLine_nomatch _ _ _ _ _ _ hm]⟩
-
-theorem seq_ok_status (w : Bytes) (r : Run) : ((Run.ok w).seq r).status = r.status := rfl
-
-/-- **the read loop panics on the 2³¹-th line** (debug build; the release build wraps `line_idx`
-    to `i32::MIN`) when the list ends with an open bound — so that the loop is never left early —
-    and every line is UTF-8 -/
-theorem readWhile_overflow (opt : Opt) (b : UserBounds) (hb : b.r = .cont) :
-    ∀ (fuel : Nat) (stdin : Bytes) (pre r0 : List BoF) (idx : Int) (a : Bool),
-      opt.bounds.list = pre ++ (r0 ++ [.bound b]) → stdin.length < fuel → 0 ≤ idx → idx ≤ i32Max →
-      (∀ l ∈ records opt.eol.byte stdin, validUtf8 l = true) →
-      i32Max < idx + (records opt.eol.byte stdin).length →
-      (readWhile opt fuel stdin ⟨idx, pre.length, a⟩).1.status = .panic := by
-  intro fuel
-  induction fuel with
-  | zero => intro stdin _ _ _ _ _ h; omega
-  | succ fuel ih =>
-    intro stdin pre r0 idx a h hf h0 hmax hval hmany
-    by_cases hne : stdin = []
-    · subst hne
-      have hrec : records opt.eol.byte [] = [] := rfl
-      rw [hrec] at hmany
-      simp only [List.length_nil] at hmany
-      omega
-    · obtain ⟨raw, rest', e1, e2, e3, e4, e5⟩ := reader_step opt.eol stdin hne
-      rw [e4] at hmany hval
-      simp only [List.length_cons] at hmany
-      have hv : validUtf8 raw = true := by rw [e5]; exact hval _ (by simp)
-      by_cases hm : idx = i32Max
-      · have hadd : checkedAddI32 idx 1 = .panic := by
-          unfold checkedAddI32
-          rw [if_neg (by omega)]
-        simp only [readWhile, readLineWithEol_eq opt.eol stdin raw rest' e1 e2, hv, if_true, hadd]
-        rfl
-      · have hadd : checkedAddI32 idx 1 = .ok (idx + 1) := checkedAddI32_ok h0 (by omega)
-        have hL : (r0 ++ [BoF.bound b]).length < opt.bounds.list.length + 1 := by rw [h]; simp; omega
-        obtain ⟨pre', p1, p2⟩ := innerWhile_eq opt (stripEol opt.eol.byte raw) (idx + 1)
-          (r0 ++ [.bound b]) pre (opt.bounds.list.length + 1) a h hL
-        obtain ⟨r1, hr1⟩ := fwdLine_keeps_open opt (stripEol opt.eol.byte raw) (idx + 1) b hb r0 a
-        rw [hr1] at p1
-        have hlen : (pre'.length == opt.bounds.list.length) = false := by
-          rw [p1]; simp
-        simp only [readWhile, readLineWithEol_eq opt.eol stdin raw rest' e1 e2, hv, if_true, hadd, p2,
-          hlen, Bool.false_eq_true, if_false, seq_ok_status]
-        exact ih rest' pre' r1 (idx + 1) _ p1 (by omega) (by omega) (by omega)
-          (fun l hl => hval l (List.mem_cons_of_mem _ hl)) (by omega)
 
 end LinesLoop
 end Tuc
